@@ -55,7 +55,7 @@ def check(run):
     from .copylib import copy_protocol
     copy_protocol(run, prog, ist)           # a copied window keeps its capacity and contents
     c06.depends_on(run, "C06", {"KEYS", "VALUE", "MERGE"})      # the last link of every chain asks the imputer to replace nothing
-    c06.depends_on(run, "C14", {"WIRING", "DISPATCH"})  # the baseline / last chain element go through the default wrappers' batch path
+    c06.depends_on(run, "C14", {"WIRING", "DISPATCH", "INPUT"})  # the baseline / last chain element go through the default wrappers' batch path
 
 
 def _batch(run, prog, cls, method, original):
